@@ -46,6 +46,8 @@ class FnSpec:
     prefer_cvc5: bool = False  # try cvc5 before z3 (functions whose obligations z3 only answers after a long search)
     dead_returns_ok: bool = False  # some returns are unreachable under the requires by design (no return cover canaries)
     ext_inf: bool = False  # `+` on reals is IEEE-like for +inf: inf + x == inf (x > -inf); -inf operands are excluded by obligation
+    str_literals: bool = False  # string literals are interned constants (equal literals equal, different literals different) instead of
+    #                             arbitrary opaque values; opt-in, because the extra facts are noise for proofs that never compare strings
     strict_inf: bool = True  # every +, -, * on reals must have operands other than +-inf (obligation `inf-arith`): no inf - inf / nan
 
     @property
